@@ -33,6 +33,13 @@ def show_summary(fs: traceback.FrameSummary) -> str:
     return f"{fs.filename}|{fs.lineno}|{fs.name}|L:{fs.line}|{loc}"
 
 
+def _truth(o) -> bool:
+    try:
+        return bool(o)
+    except Exception:
+        return True
+
+
 class C19(PropCheck):
     pid = "C19"
     rule = ("the C18 tree generator (depth/width <= 3 quick, <= 4 thorough) plus real stacks extracted from await chains, x all 8 "
@@ -92,6 +99,11 @@ class C19(PropCheck):
         for ctx in (False, True):
             lines = s.format_flat(show_contexts=ctx)
             header = s._format_header()
+            want_header = ("stackscope.Stack (most recent call last):\n" if s.root is None
+                           else f"stackscope.Stack of {s.root!r} (most recent call last):\n")
+            if header != want_header or not lines or lines[0] != want_header:
+                self._probs.append(f"format_flat header {lines[:1]!r} for root {s.root!r} (falsy: {s.root is not None and not _truth(s.root)}); "
+                                   f"expected {want_header!r}")
             mid = list(s.as_stdlib_summary(show_contexts=ctx).format()) if s.frames else []
             tail = ([f"  Target of innermost frame: {s.leaf!r}\n"] if s.leaf is not None else []) + \
                    (["  Error while extracting stack:\n"] + ["  " + l for l in trees.error_lines(s.error)] if s.error is not None else [])
